@@ -694,7 +694,9 @@ func driveOne(res *hx.Result, tw *hx.TraceWriter, tr int64, tlen int, stub strin
 	var sample []Desc
 	for i := 0; i < tlen; i++ {
 		d := Desc{Kind: driverKinds[rng.Intn(len(driverKinds))], PV: "ok", Basis: driverBases[rng.Intn(len(driverBases))], Inp: "conf", Fault: "none"}
-		if rng.Intn(4) == 0 {
+		if (d.Basis == "fork" || d.Basis == "forkx") && rng.Intn(3) == 0 {
+			d.Inp = "forkc"
+		} else if rng.Intn(4) == 0 {
 			d.Inp = "unconf"
 			if d.Basis != "same" && rng.Intn(2) == 0 {
 				d.Inp = "unconfc"
